@@ -910,7 +910,7 @@ macro_rules! core_ops3_impl {
                                 *x = ((sx.next_i64() as u64) % (1u64 << sh.b_in)) as i64 - (1i64 << (sh.b_in - 1));
                             }
                         }
-                        let cnv_offset = sh.b_in as usize * (1 + ((sh.extra as usize >> 1) % 2)) + (sh.seed as usize % sh.b_in as usize);
+                        let cnv_offset = sh.b_in as usize * ((sh.extra as usize >> 1) % 3) + (sh.seed as usize % sh.b_in as usize);
                         let mut a: GLWE<Vec<u8>> = GLWE::alloc_from_infos(&in_infos);
                         a.fill_uniform(sh.b_in as usize, &mut src(sh.seed, 6));
                         if op == "glwe_mul_const" {
@@ -929,7 +929,7 @@ macro_rules! core_ops3_impl {
                         let pt_infos = gl(sh.n, sh.b_in, k_b, 0);
                         let mut pt: GLWEPlaintext<Vec<u8>> = GLWEPlaintext::alloc_from_infos(&pt_infos);
                         pt.data_mut().fill_uniform(sh.b_in as usize, &mut src(sh.seed, 5));
-                        let cnv_offset = sh.b_in as usize * (1 + ((sh.extra as usize >> 1) % 2)) + (sh.seed as usize % sh.b_in as usize);
+                        let cnv_offset = sh.b_in as usize * ((sh.extra as usize >> 1) % 3) + (sh.seed as usize % sh.b_in as usize);
                         let mut a: GLWE<Vec<u8>> = GLWE::alloc_from_infos(&in_infos);
                         a.fill_uniform(sh.b_in as usize, &mut src(sh.seed, 6));
                         if op == "glwe_mul_plain" {
@@ -951,7 +951,7 @@ macro_rules! core_ops3_impl {
                         let size_b = 1 + sh.extra % 3;
                         let k_b = sh.b_in * size_b - (sh.seed as u32 % sh.b_in.min(5));
                         let b_infos = gl(sh.n, sh.b_in, k_b, rank);
-                        let cnv_offset = sh.b_in as usize * (1 + ((sh.extra as usize >> 1) % 2)) + (sh.seed as usize % sh.b_in as usize);
+                        let cnv_offset = sh.b_in as usize * ((sh.extra as usize >> 1) % 3) + (sh.seed as usize % sh.b_in as usize);
                         let mut a: GLWE<Vec<u8>> = GLWE::alloc_from_infos(&in_infos);
                         a.fill_uniform(sh.b_in as usize, &mut src(sh.seed, 6));
                         let mut b: GLWE<Vec<u8>> = GLWE::alloc_from_infos(&b_infos);
